@@ -341,6 +341,10 @@ HOSTS = [
     ("method-args-prefixed", 2, lambda c: ([], PCall(Int(10), "+", [Pre("-", c[0])]) if False else Arr(PCall(Int(10), "+", [Pre("-", c[0])]), PCall(Int(10), "-", [Pre("-", c[1])])))),
     ("arr-prefixed", 3, lambda c: ([], Arr(Pre("-", c[0]), Pre("!", c[1]), Pre("-", c[2])))),
     ("obj-prefixed", 2, lambda c: ([], Obj(("a", Pre("-", c[0])), ("b", Pre("!", c[1]))))),
+    ("args-dspread-dup", 4, lambda c: ([Asg("f", _f3())], Call(Id("f"), [c[0], DSpread(Obj(("k", c[1]))), DSpread(Obj(("k", c[2]), ("j", c[3])))]))),
+    ("args-dspread-dup-kw", 4, lambda c: ([Asg("f", _f3())], Call(Id("f"), [c[0], DSpread(Obj(("j", c[1]))), DSpread(Obj(("k", c[2]), ("j", c[3])))], kw=[("k", Int(5))]))),
+    ("method-dspread-dup", 3, lambda c: ([Asg("o", Obj(("m", Fn(["x"], [Arr(Id("x"), Id("k"))], kps=[("k", Int(0))], method=True))))],
+                                         PCall(Id("o"), "m", [c[0], DSpread(Obj(("k", c[1]))), DSpread(Obj(("k", c[2])))]))),
     ("method", 3, lambda c: ([Asg("o", Obj(("m", Fn(["x", "y"], [Arr(Id("x"), Id("y"))], method=True))))], PCall(Say(Id("o")), "m", [c[1], c[2]]) if c[0] is None else
                              PCall(Inf("||", c[0], Id("o")), "m", [c[1], c[2]]))),
     ("callee", 2, lambda c: ([Asg("g", Fn(["x"], [Id("x")]))], Call(Inf("&&", c[0], Id("g")), [c[1]]))),
@@ -376,6 +380,9 @@ HOSTS += [
                                                  PCall(Arr(Int(1), Int(2)), "+", [Spread(Arr())] if False else [], main="$", carg=Inf("+", c[0], Inf("+", c[1], c[2]))))),
     ("chain-arg-prop-scalar-args", 3, lambda c: ([Asg("o", Obj(("um", Fn(["x"], [Id("x")], method=True))))],
                                                  PCall(Inf("&&", c[0], Id("o")), "um", [c[2]], main=".", carg=c[1]))),
+    # parts whose conversion to a str runs user code (an S method that reports): evaluation and conversion of part k precede part k + 1
+    ("estr-converting", 3, lambda c: ([Asg("mks", Fn(["k", "v"], [Obj(("S", Fn([], [Say(Id("k")), Str("s")], method=True)))]))],
+                                      EStr("a", Call(Id("mks"), [Int(11), c[0]]), "-", c[1], "-", Call(Id("mks"), [Int(13), c[2]]), "z"))),
     ("estr5", 5, lambda c: ([], EStr("a", c[0], "b", c[1], "c", c[2], "d", c[3], "e", c[4], "f"))),
     ("estr4", 4, lambda c: ([], EStr(c[0], c[1], "-", c[2], c[3]))),
 ]
